@@ -29,14 +29,17 @@ THEOREMS = ["dense_spec", "dense_value", "dense_shape", "dense_eq_spec", "sparse
             "biases_eq_noAlias", "biases_fst_get", "biases_snd_get", "missing_column_error",
             "cooler_missing_column_error", "dump_missing_error", "divisive_default_iff", "divisive_explicit",
             "dense_contract", "sparse_contract", "pixels_contract", "dump_contract", "cellOk_factors"]
-LEVELS = {"matrix": "top", "dump": "top", "constants": "unit", "arith": "unit"}
+LEVELS = {"matrix": "top", "dump": "top", "sequence": "top", "constants": "unit", "arith": "unit"}
 DESCRIBE = {
     "matrix": "Cooler.matrix(balance=b, divisive_weights=d, sparse/as_pixels)[i0:i1, j0:j1] for EVERY window of one "
               "(store, weight columns) pair vs Lean coolerDense/coolerSparse/coolerPixels (Float) fed with the raw "
               "(balance=False) result of the same query; bit-for-bit, falling back to the Lean contract denseOk/sparseOk/pixelsOk "
               "(some bracketing of raw x wt(row) x wt(col)); a missing column must raise in all three forms",
-    "dump": "`cooler dump -b` (with/without -r/-r2, --join, -f) vs Lean dumpBalanced (fallback: contract "
+    "dump": "`cooler dump -b` (with/without -r/-r2, --join, -f, --one-based-ids, --one-based-starts, -H) vs Lean dumpBalanced (fallback: contract "
             "pixelsOk) fed with the rows of the same dump without -b; no `weight` column => non-zero exit",
+    "sequence": "2-3 collections in ONE file (file::/resolutions/k) with the same weight-column names and different vectors, "
+                "read alternately in one process (dense, sparse, pixels; every window): each read vs the Lean model with "
+                "THAT collection's weights",
     "constants": "cooler.api._4DN_DIVISIVE_WEIGHTS vs Lean divisiveNames (default divisive flag per name)",
     "arith": "trusted-base self-test: Lean Float `*`, `1.0/x`, Float.ofInt and hex marshalling vs numpy float64 (bit for bit)",
 }
@@ -44,7 +47,9 @@ RULE = ("one case = one store (n<=5 quick / <=7 thorough bins over 1-2 chromosom
         "pixels incl. explicit zeros, negative and 2^31-1 counts, optional float64 field) x 1-4 weight columns "
         "(weight/KR/VC/VC_SQRT/wt2; NaN, +-0, 0.1, 1/3, 1e300, 1e-300, denormal, negative, random) x 4 (quick) / 6 (thorough) "
         "(balance, divisive_weights) configurations incl. True, KR-default, a missing column; inside a case EVERY window "
-        "0<=i0<=i1<=n, 0<=j0<=j1<=n x dense/sparse/pixels(join on one config); non-trivial = n>=2, a stored pixel and a present "
+        "0<=i0<=i1<=n, 0<=j0<=j1<=n x dense/sparse/pixels (join=True on one config, ignore_index=False on one config with "
+        "the pixel-id index compared with the unbalanced read's); dump: every -r/-r2 pair x {--join,-f} x printing options "
+        "{--one-based-ids,--one-based-starts,-H}; sequence: 2-3 collections per file read in turn; non-trivial = n>=2, a stored pixel and a present "
         "weight column; distinct by canonical JSON of the case")
 EXHAUSTIVE = {"quick": False, "thorough": False}
 TRUSTED = ["numpy/pandas float64 `*` and `/` and int->float64 conversion are IEEE-754 correctly rounded, as are Lean's "
@@ -174,7 +179,7 @@ def _sparse_canon(mat, rawfloat, balanced):
 
 
 def _pixels_canon(df, field, rawfloat, joined, binid):
-    """rows [bin1, bin2, raw, balanced-or-None] in frame order"""
+    """(rows [bin1, bin2, raw, balanced-or-None] in frame order, index labels in frame order)"""
     if joined:
         b1 = [binid[(str(c), int(s))] for c, s in zip(df["chrom1"], df["start1"])]
         b2 = [binid[(str(c), int(s))] for c, s in zip(df["chrom2"], df["start2"])]
@@ -183,7 +188,11 @@ def _pixels_canon(df, field, rawfloat, joined, binid):
         b2 = [int(x) for x in df["bin2_id"]]
     raw = rawvals(df[field].to_numpy(), rawfloat)
     bal = hexes(df["balanced"].to_numpy()) if "balanced" in df.columns else [None] * len(df)
-    return [[a, b, r, v] for a, b, r, v in zip(b1, b2, raw, bal)]
+    return [[a, b, r, v] for a, b, r, v in zip(b1, b2, raw, bal)], [int(x) for x in df.index]
+
+
+def _pxkey(r):
+    return (r[0], r[1], str(r[2]), str(r[3]))
 
 
 def _expect(model_entry, what):
@@ -207,112 +216,241 @@ def _check_l0(entry, form):
         assert m == spec, f"L1 != L0 ({form}): {m} vs {spec}"
 
 
-def _matrix(case):
-    n = sum(case["chroms"])
-    field = case.get("field", "count")
-    rawfloat = field == "fv"
-    configs = case["configs"]
-    joincfg = case.get("join_config", 0)
-    only = case.get("only")
-    cols = case["weights"]
-    p = _build(case, "m")
-    bins = _bins(case)
-    binid = {(gen.chromname(b[0]), b[1]): k for k, b in enumerate(bins)}
-    stats = {"windows": 0, "comparisons": 0, "raw_query_errors": 0, "error_outcomes": 0, "bracketing_differs": 0}
-    mism = []
-    try:
-        clr = cooler.Cooler(p)
-        wins = [tuple(only["win"])] if only else list(_windows(n))
-        forms = only["forms"] if only else ["dense", "sparse", "pixels", "pixels_join"]
-        cfg_idx = only["configs"] if only else list(range(len(configs)))
-        cfgs = [configs[k] for k in cfg_idx]
-        for (i0, i1, j0, j1) in wins:
-            stats["windows"] += 1
-            sl = (slice(i0, i1), slice(j0, j1))
-            w = [i0, i1, j0, j1]
-            # ---- raw results of the same query ----
-            rawD = _outcome(lambda: _dense_canon(clr.matrix(field=field, balance=False, sparse=False)[sl], rawfloat, False))
-            rawS = _outcome(lambda: _sparse_canon(clr.matrix(field=field, balance=False, sparse=True)[sl], rawfloat, False))
-            rawP = _outcome(lambda: _pixels_canon(clr.matrix(field=field, balance=False, as_pixels=True, join=False)[sl],
-                                                  field, rawfloat, False, binid))
-            if "err" in (rawD[0], rawS[0], rawP[0]):
-                stats["raw_query_errors"] += 1  # not this property's business (C03)
-            exp = {}
-            if rawD[0] == "ok" and "dense" in forms and isinstance(rawD[1], list):
-                exp["dense"] = drv().ask("C12.dense", cols=cols, configs=cfgs, win=w, raw=rawD[1], rawfloat=rawfloat)
-            if rawS[0] == "ok" and "sparse" in forms:
-                exp["sparse"] = drv().ask("C12.sparse", cols=cols, configs=cfgs, win=w, raw=rawS[1], rawfloat=rawfloat)
-            if rawP[0] == "ok" and ("pixels" in forms or "pixels_join" in forms):
-                exp["pixels"] = drv().ask("C12.pixels", cols=cols, configs=cfgs,
-                                          raw=[r[:3] for r in rawP[1]], rawfloat=rawfloat)
-            for k, (bal, dw) in zip(cfg_idx, cfgs):
-                for form in forms:
-                    key = "pixels" if form == "pixels_join" else form
-                    if key not in exp:
-                        continue
-                    if form == "pixels_join" and k != joincfg and not only:
-                        continue
-                    entry = exp[key][cfg_idx.index(k)]
-                    _check_l0(entry, key)
-                    want = _expect(entry, key)
-                    if form == "dense":
-                        got = _outcome(lambda: _dense_canon(
-                            clr.matrix(field=field, balance=bal, sparse=False, divisive_weights=dw)[sl], rawfloat, True))
-                        w_val = want[1] if want[0] == "ok" else None
-                    elif form == "sparse":
-                        got = _outcome(lambda: sorted(_sparse_canon(
-                            clr.matrix(field=field, balance=bal, sparse=True, divisive_weights=dw)[sl], rawfloat, True)))
-                        w_val = sorted(want[1]) if want[0] == "ok" else None
-                    else:
-                        joined = form == "pixels_join"
-                        got = _outcome(lambda: sorted(_pixels_canon(
-                            clr.matrix(field=field, balance=bal, as_pixels=True, join=joined, divisive_weights=dw)[sl],
-                            field, rawfloat, joined, binid), key=lambda r: (r[0], r[1], str(r[2]), str(r[3]))))
-                        w_val = (sorted([r[:3] + [v] for r, v in zip(rawP[1], want[1])],
-                                        key=lambda r: (r[0], r[1], str(r[2]), str(r[3]))) if want[0] == "ok" else None)
-                    stats["comparisons"] += 1
-                    rawkey = {"dense": rawD, "sparse": rawS, "pixels": rawP}[key][1]
-                    verdict = "ok"
-                    if want[0] == "raw":
-                        continue
-                    if want[0] == "err":
-                        # the property promises *an error*, not its class or message
-                        stats["error_outcomes"] += 1
-                        if got[0] != "err":
-                            verdict = "no error for a missing weight column"
-                    elif got[0] != "ok":
-                        verdict = "raised"
-                    else:
-                        strict = got[1] == w_val
-                        sample = (i0 + 2 * i1 + 3 * j0 + 5 * j1 + k) % 7 == 0
-                        if not strict or sample:
-                            holds = _contract(key, got[1], rawkey, cols, [bal, dw], w, rawfloat)
-                            if strict and holds is not True:
-                                raise AssertionError(f"model output rejected by the contract (theorems *_contract): "
-                                                     f"{key} {w} {bal} {dw} {got[1]}")
-                            if not strict:
-                                stats["bracketing_differs"] += 1
-                                if holds is not True or STRICT_ASSOCIATION:
-                                    verdict = "wrong value" if holds is not True else "bracketing differs (STRICT_ASSOCIATION)"
-                    if verdict != "ok":
-                        mism.append({"win": w, "balance": bal, "divisive_weights": dw, "form": form, "config_index": k,
-                                     "verdict": verdict,
-                                     "impl": got[1] if got[0] == "ok" else {"raised": got[1]},
-                                     "model": w_val if want[0] == "ok" else {"error": want[1]},
-                                     "raw": rawkey})
-                        nvalue = sum(1 for m_ in mism if m_["verdict"] == "wrong value")
-                        if (nvalue >= 1 and len(mism) >= 3) or len(mism) >= 30:
-                            raise _Stop()
-    except _Stop:
-        pass
-    finally:
-        if os.path.exists(p):
-            os.unlink(p)
+FORMS = ["dense", "sparse", "pixels", "pixels_join", "pixels_idx"]
+
+
+class _Ctx:
+    """one collection being read: its Cooler object, its weight columns, and the run's bookkeeping"""
+
+    def __init__(self, clr, case, stats, mism, label=None):
+        self.clr = clr
+        self.cols = case["weights"]
+        self.field = case.get("field", "count")
+        self.rawfloat = self.field == "fv"
+        self.configs = case["configs"]
+        self.joincfg = case.get("join_config", 0)
+        self.idxcfg = case.get("idx_config", 0)
+        self.binid = {(gen.chromname(b[0]), b[1]): k for k, b in enumerate(_bins(case))}
+        self.stats = stats
+        self.mism = mism
+        self.label = label
+        self.step = None
+
+
+def _raws(ctx, win, forms, cfg_idx):
+    """the raw (balance=False) results of the same query in the three forms, and the model's answers for them"""
+    i0, i1, j0, j1 = win
+    sl = (slice(i0, i1), slice(j0, j1))
+    w = list(win)
+    clr, field, rawfloat = ctx.clr, ctx.field, ctx.rawfloat
+    cfgs = [ctx.configs[k] for k in cfg_idx]
+    rawD = _outcome(lambda: _dense_canon(clr.matrix(field=field, balance=False, sparse=False)[sl], rawfloat, False))
+    rawS = _outcome(lambda: _sparse_canon(clr.matrix(field=field, balance=False, sparse=True)[sl], rawfloat, False))
+    # ignore_index=False: the frame is labelled with the pixel-table row ids, which a balanced read must keep
+    rawP = _outcome(lambda: _pixels_canon(
+        clr.matrix(field=field, balance=False, as_pixels=True, join=False, ignore_index=False)[sl],
+        field, rawfloat, False, ctx.binid))
+    if "err" in (rawD[0], rawS[0], rawP[0]):
+        ctx.stats["raw_query_errors"] += 1  # not this property's business (C03)
+    exp = {}
+    if rawD[0] == "ok" and "dense" in forms and isinstance(rawD[1], list):
+        exp["dense"] = drv().ask("C12.dense", cols=ctx.cols, configs=cfgs, win=w, raw=rawD[1], rawfloat=rawfloat)
+    if rawS[0] == "ok" and "sparse" in forms:
+        exp["sparse"] = drv().ask("C12.sparse", cols=ctx.cols, configs=cfgs, win=w, raw=rawS[1], rawfloat=rawfloat)
+    if rawP[0] == "ok" and any(f.startswith("pixels") for f in forms):
+        exp["pixels"] = drv().ask("C12.pixels", cols=ctx.cols, configs=cfgs,
+                                  raw=[r[:3] for r in rawP[1][0]], rawfloat=rawfloat)
+    raw = {"dense": rawD[1], "sparse": rawS[1]}
+    if rawP[0] == "ok":
+        raw["pixels"] = rawP[1][0]
+        raw["pixel_ids"] = sorted([i_, r[0], r[1]] for i_, r in zip(rawP[1][1], rawP[1][0]))
+    return {"win": w, "sl": sl, "raw": raw, "exp": exp, "cfg_idx": list(cfg_idx)}
+
+
+def _judge(ctx, rw, k, form):
+    """one balanced read of configuration `k` in form `form` against the model; appends to ctx.mism"""
+    key = "pixels" if form.startswith("pixels") else form
+    exp = rw["exp"]
+    if key not in exp:
+        return
+    clr, field, rawfloat, stats = ctx.clr, ctx.field, ctx.rawfloat, ctx.stats
+    bal, dw = ctx.configs[k]
+    w, sl = rw["win"], rw["sl"]
+    i0, i1, j0, j1 = w
+    entry = exp[key][rw["cfg_idx"].index(k)]
+    _check_l0(entry, key)
+    want = _expect(entry, key)
+    got_ids = None
+    if form == "dense":
+        got = _outcome(lambda: _dense_canon(
+            clr.matrix(field=field, balance=bal, sparse=False, divisive_weights=dw)[sl], rawfloat, True))
+        w_val = want[1] if want[0] == "ok" else None
+    elif form == "sparse":
+        got = _outcome(lambda: sorted(_sparse_canon(
+            clr.matrix(field=field, balance=bal, sparse=True, divisive_weights=dw)[sl], rawfloat, True)))
+        w_val = sorted(want[1]) if want[0] == "ok" else None
+    else:
+        joined = form == "pixels_join"
+        # plain: the default (ignore_index=True); idx: pixel ids kept; join: alternately
+        keep_ids = form == "pixels_idx" or (joined and (i0 + i1 + j0 + j1) % 2 == 1)
+        kw = {"ignore_index": False} if keep_ids else {}
+        got = _outcome(lambda: _pixels_canon(
+            clr.matrix(field=field, balance=bal, as_pixels=True, join=joined, divisive_weights=dw, **kw)[sl],
+            field, rawfloat, joined, ctx.binid))
+        if got[0] == "ok":
+            rows, ids = got[1]
+            if keep_ids:
+                got_ids = sorted([i_, r[0], r[1]] for i_, r in zip(ids, rows))
+            got = ("ok", sorted(rows, key=_pxkey))
+        w_val = (sorted([r[:3] + [v] for r, v in zip(rw["raw"]["pixels"], want[1])], key=_pxkey)
+                 if want[0] == "ok" else None)
+    stats["comparisons"] += 1
+    rawkey = rw["raw"][key]
+    verdict = "ok"
+    if want[0] == "raw":
+        return
+    if want[0] == "err":
+        # the property promises *an error*, not its class or message
+        stats["error_outcomes"] += 1
+        if got[0] != "err":
+            verdict = "no error for a missing weight column"
+    elif got[0] != "ok":
+        verdict = "raised"
+    else:
+        strict = got[1] == w_val
+        sample = (i0 + 2 * i1 + 3 * j0 + 5 * j1 + k) % 7 == 0
+        if not strict or sample:
+            holds = _contract(key, got[1], rawkey, ctx.cols, [bal, dw], w, rawfloat)
+            if strict and holds is not True:
+                raise AssertionError(f"model output rejected by the contract (theorems *_contract): "
+                                     f"{key} {w} {bal} {dw} {got[1]}")
+            if not strict:
+                stats["bracketing_differs"] += 1
+                if holds is not True or STRICT_ASSOCIATION:
+                    verdict = "wrong value" if holds is not True else "bracketing differs (STRICT_ASSOCIATION)"
+        if verdict == "ok" and got_ids is not None:
+            stats["index_comparisons"] += 1
+            if got_ids != rw["raw"]["pixel_ids"]:
+                verdict = "pixel-id index differs from the unbalanced read's"
+    if verdict != "ok":
+        rec = {"win": w, "balance": bal, "divisive_weights": dw, "form": form, "config_index": k,
+               "verdict": verdict,
+               "impl": got[1] if got[0] == "ok" else {"raised": got[1]},
+               "model": w_val if want[0] == "ok" else {"error": want[1]},
+               "raw": rawkey}
+        if got_ids is not None:
+            rec["impl_pixel_ids"] = got_ids
+            rec["raw_pixel_ids"] = rw["raw"].get("pixel_ids")
+        if ctx.label is not None:
+            rec["group"] = ctx.label
+            rec["step"] = ctx.step
+        ctx.mism.append(rec)
+        nvalue = sum(1 for m_ in ctx.mism if m_["verdict"] == "wrong value")
+        if (nvalue >= 1 and len(ctx.mism) >= 3) or len(ctx.mism) >= 30:
+            raise _Stop()
+
+
+def _new_stats():
+    return {"windows": 0, "comparisons": 0, "raw_query_errors": 0, "error_outcomes": 0, "bracketing_differs": 0,
+            "index_comparisons": 0}
+
+
+def _verdict(mism, stats):
     if mism:
         # a wrong value makes a clearer replay than an exception: report it first
         mism.sort(key=lambda m_: m_["verdict"] != "wrong value")
         return {"mismatch": True, "first": mism[0], "more": mism[1:3], "n_reported": len(mism)}
     return {"stats": stats}
+
+
+def _matrix(case):
+    n = sum(case["chroms"])
+    only = case.get("only")
+    p = _build(case, "m")
+    stats, mism = _new_stats(), []
+    try:
+        ctx = _Ctx(cooler.Cooler(p), case, stats, mism)
+        wins = [tuple(only["win"])] if only else list(_windows(n))
+        forms = only["forms"] if only else FORMS
+        cfg_idx = only["configs"] if only else list(range(len(ctx.configs)))
+        for win in wins:
+            stats["windows"] += 1
+            rw = _raws(ctx, win, forms, cfg_idx)
+            for k in cfg_idx:
+                for form in forms:
+                    if not only and ((form == "pixels_join" and k != ctx.joincfg) or
+                                     (form == "pixels_idx" and k != ctx.idxcfg)):
+                        continue
+                    _judge(ctx, rw, k, form)
+    except _Stop:
+        pass
+    finally:
+        if os.path.exists(p):
+            os.unlink(p)
+    return _verdict(mism, stats)
+
+
+# ------------------------------------------------------------------------------------------------
+# several collections in one file, read alternately in one process
+# ------------------------------------------------------------------------------------------------
+
+def _group_path(k):
+    return f"/resolutions/{BINSIZE * (k + 1)}"
+
+
+def _sequence(case):
+    """state carried between calls: every read of a collection must use THAT collection's weights, whatever was
+    read before from another collection of the same (unmodified) file"""
+    groups = case["groups"]
+    only = case.get("only")
+    p = os.path.join(gen.tmpdir(), f"c12-s-{os.getpid()}.mcool")
+    if os.path.exists(p):
+        os.unlink(p)
+    stats, mism = _new_stats(), []
+    try:
+        for k, g in enumerate(groups):
+            px = g["pixels"]
+            df = pd.DataFrame({
+                "bin1_id": np.array([r[0] for r in px], dtype=np.int64),
+                "bin2_id": np.array([r[1] for r in px], dtype=np.int64),
+                "count": np.array([r[2] for r in px], dtype=np.int64),
+            })
+            cooler.create_cooler(f"{p}::{_group_path(k)}", gen.bins_df(_bins(g)), df,
+                                 symmetric_upper=(g["mode"] == "symm"), ordered=True, mode="a")
+        with h5py.File(p, "r+") as f:
+            for k, g in enumerate(groups):
+                for name, vec in g["weights"]:
+                    f[_group_path(k)]["bins"].create_dataset(
+                        name, data=np.array([unhx(s_) for s_ in vec], dtype=np.float64),
+                        compression="gzip", compression_opts=6)
+        # from here on the file is not modified
+        ctxs = []
+        for k, g in enumerate(groups):
+            gc = dict(g)
+            gc["configs"] = case["configs"]
+            ctxs.append(_Ctx(cooler.Cooler(f"{p}::{_group_path(k)}"), gc, stats, mism, label=k))
+        wlists = [list(_windows(sum(g["chroms"]))) for g in groups]
+        steps = [only["step"]] if only else range(max(len(wl) for wl in wlists))
+        forms = only["forms"] if only else ["dense", "sparse", "pixels"]
+        cfg_idx = only["configs"] if only else list(range(len(case["configs"])))
+        for t in steps:
+            stats["windows"] += 1
+            for c_ in ctxs:
+                c_.step = t
+            rws = [_raws(ctx, wl[t % len(wl)], forms, cfg_idx) for ctx, wl in zip(ctxs, wlists)]
+            for k in cfg_idx:
+                for form in forms:
+                    # the same read from each collection in turn; the order of the turn rotates
+                    order = list(range(len(ctxs)))
+                    order = order[t % len(order):] + order[:t % len(order)]
+                    for g_ in order:
+                        _judge(ctxs[g_], rws[g_], k, form)
+    except _Stop:
+        pass
+    finally:
+        if os.path.exists(p):
+            os.unlink(p)
+    return _verdict(mism, stats)
 
 
 class _Stop(Exception):
@@ -342,23 +480,25 @@ def _contract(key, got, raw, cols, config, w, rawfloat):
 # cooler dump -b
 # ------------------------------------------------------------------------------------------------
 
-def _parse_dump(out, joined, binid, balanced):
-    rows = []
-    for line in out.splitlines():
-        if not line.strip():
-            continue
-        t = line.split("\t")
+def _fields(out, header_flag):
+    """stdout of a dump → (header fields or None, list of rows as lists of strings)"""
+    lines = [l for l in out.splitlines() if l.strip()]
+    header = None
+    if header_flag and lines and lines[0].split("\t")[0] in ("bin1_id", "chrom1"):
+        header = lines[0].split("\t")
+        lines = lines[1:]
+    return header, [l.split("\t") for l in lines]
+
+
+def _zero_based_rows(rows, joined, binid):
+    """rows of a dump printed WITHOUT the one-based options → [bin1, bin2, count]"""
+    out = []
+    for t in rows:
         if joined:
-            b1, b2 = binid[(t[0], int(t[1]))], binid[(t[3], int(t[4]))]
-            rest = t[6:]
+            out.append([binid[(t[0], int(t[1]))], binid[(t[3], int(t[4]))], int(t[6])])
         else:
-            b1, b2 = int(t[0]), int(t[1])
-            rest = t[2:]
-        row = [b1, b2, int(rest[0])]
-        if balanced:
-            row.append(hx(float(rest[1])))
-        rows.append(row)
-    return rows
+            out.append([int(t[0]), int(t[1]), int(t[2])])
+    return out
 
 
 def _regions(case):
@@ -372,15 +512,25 @@ def _regions(case):
     return out
 
 
+BASE_FLAGS = [[], ["--join"], ["-f"], ["--join", "-f"]]
+# options that change how ids / coordinates / the header are PRINTED; none may change a balanced value
+PRINT_FLAGS = [[], ["--one-based-ids"], ["--one-based-starts"], ["--one-based-ids", "--one-based-starts"], ["-H"],
+               ["-H", "--one-based-ids"]]
+
+
 def _dump(case):
     from click.testing import CliRunner
     from cooler.cli import cli
     p = _build(case, "d")
-    bins = _bins(case)
-    binid = {(gen.chromname(b[0]), b[1]): k for k, b in enumerate(bins)}
+    binid = {(gen.chromname(b[0]), b[1]): k for k, b in enumerate(_bins(case))}
     cols = case["weights"]
-    stats = {"dumps": 0, "rows": 0, "missing_weight": 0, "bracketing_differs": 0}
+    stats = {"dumps": 0, "rows": 0, "missing_weight": 0, "bracketing_differs": 0, "print_option_dumps": 0,
+             "unpaired_print_option_dumps": 0}
     only = case.get("only")
+
+    def bad(r1, r2, flags, **kw):
+        return dict({"mismatch": True, "regions": [r1, r2], "flags": flags}, **kw)
+
     try:
         regs = _regions(case)
         combos = []
@@ -390,55 +540,88 @@ def _dump(case):
                 continue
             for r2 in regs:
                 combos.append((r1, r2))
-        variants = [[], ["--join"], ["-f"], ["--join", "-f"]]
         if only:
             combos = [tuple(only["regions"])]
-            variants = [only["flags"]]
-        # deterministic thinning: every (r1, r2) pair once, cycling through the flag variants, all variants for the full dump
+        # every (r1, r2) pair once, cycling through the option combinations; all combinations for the full dump
         for k, (r1, r2) in enumerate(combos):
-            vs = variants if (r1 is None or only) else [variants[k % len(variants)]]
-            for flags in vs:
-                args = ["dump", "--na-rep", "nan", "--float-format", ".17g"] + flags
+            if only:
+                variants = [(only.get("base", [f for f in only["flags"] if f in ("--join", "-f")]),
+                             only.get("print", [f for f in only["flags"] if f not in ("--join", "-f")]))]
+            elif r1 is None:
+                variants = [(b, e) for b in BASE_FLAGS for e in PRINT_FLAGS]
+            else:
+                variants = [(BASE_FLAGS[k % len(BASE_FLAGS)], PRINT_FLAGS[(k // len(BASE_FLAGS)) % len(PRINT_FLAGS)])]
+            for base, extra in variants:
+                flags = base + extra
+                args = ["dump", "--na-rep", "nan", "--float-format", ".17g"] + base
                 if r1 is not None:
                     args += ["-r", r1]
                 if r2 is not None:
                     args += ["-r2", r2]
-                raw = CliRunner().invoke(cli, args + [p])
-                bal = CliRunner().invoke(cli, args + ["-b", p])
+                joined = "--join" in base
+                hdr = "-H" in extra
+                raw0 = CliRunner().invoke(cli, args + [p])                       # zero-based, no -b
+                rawF = CliRunner().invoke(cli, args + extra + [p]) if extra else raw0   # same printing options, no -b
+                balF = CliRunner().invoke(cli, args + extra + ["-b", p])
                 stats["dumps"] += 1
-                if raw.exit_code != 0:
+                if extra:
+                    stats["print_option_dumps"] += 1
+                if raw0.exit_code != 0:
                     continue  # the unbalanced dump itself fails: not this property's business
-                joined = "--join" in flags
-                rawrows = _parse_dump(raw.stdout, joined, binid, False)
+                rawrows = _zero_based_rows(_fields(raw0.stdout, False)[1], joined, binid)
                 m = drv().ask("C12.dump", cols=cols, raw=rawrows)
                 if m["spec"] is not None:
                     assert m["model"] == m["spec"], f"L1 != L0 (dump): {m}"
                 if "err" in m["model"]:
                     stats["missing_weight"] += 1
                     # an error, and no balanced rows (message / exit status value are not promised)
-                    if bal.exit_code == 0:
-                        return {"mismatch": True, "regions": [r1, r2], "flags": flags, "impl": {"exit": 0, "output": bal.output[-400:]},
-                                "model": m["model"]}
+                    if balF.exit_code == 0:
+                        return bad(r1, r2, flags, impl={"exit": 0, "output": balF.output[-400:]}, model=m["model"])
                     continue
-                if bal.exit_code != 0:
-                    return {"mismatch": True, "regions": [r1, r2], "flags": flags,
-                            "impl": {"exit": bal.exit_code, "output": bal.output[-400:], "exc": repr(bal.exception)},
-                            "model": "ok"}
-                got = sorted(_parse_dump(bal.stdout, joined, binid, True))
-                want = sorted(r + [v] for r, v in zip(rawrows, m["model"]["ok"]))
+                if balF.exit_code != 0:
+                    return bad(r1, r2, flags, model="ok", verdict="raised",
+                               impl={"exit": balF.exit_code, "output": balF.output[-400:], "exc": repr(balF.exception)})
+                bh, brows = _fields(balF.stdout, hdr)
+                if any(len(t) < 2 for t in brows):
+                    return bad(r1, r2, flags, impl=brows[:5], model="rows with a balanced column", verdict="malformed row")
+                # (a) -b only appends a column: the other fields are those of the same dump without -b
+                if rawF.exit_code == 0:
+                    fh, frows = _fields(rawF.stdout, hdr)
+                    if sorted(t[:-1] for t in brows) != sorted(frows):
+                        return bad(r1, r2, flags, impl=sorted(t[:-1] for t in brows)[:8], model=sorted(frows)[:8],
+                                   verdict="-b changed the rows or their printed ids/coordinates")
+                    if hdr and fh is not None and (bh is None or bh[:-1] != fh or bh[-1] != "balanced"):
+                        return bad(r1, r2, flags, impl=bh, model=fh + ["balanced"], verdict="header")
+                else:
+                    frows = None
+                # (b) the balanced value of every row is that of ITS pixel: pair the rows printed with the options with
+                # the zero-based rows of the plain dump by position (same engine, same order; the count must agree)
+                if frows is None or len(frows) != len(rawrows) or any(
+                        t[6 if joined else 2] != str(r[2]) for t, r in zip(frows, rawrows)):
+                    stats["unpaired_print_option_dumps"] += 1  # how ids are printed is property C16, not C12
+                    continue
+                val = {}
+                for t in brows:
+                    val.setdefault(tuple(t[:-1]), []).append(t[-1])
+                got = []
+                try:
+                    for t in frows:
+                        got.append(hx(float(val[tuple(t)].pop(0))))
+                except (ValueError, KeyError, IndexError):
+                    return bad(r1, r2, flags, impl=brows[:8], model="a float in the balanced column", verdict="malformed value")
+                want = m["model"]["ok"]
                 stats["rows"] += len(want)
                 differs = got != want
                 if differs or stats["dumps"] % 5 == 0:
-                    rs = sorted(rawrows)
-                    holds = ([g[:3] for g in got] == rs and
-                             drv().ask("C12.dump_contract", cols=cols, raw=rs, out=[g[3] for g in got])["holds"] is True)
+                    holds = drv().ask("C12.dump_contract", cols=cols, raw=rawrows, out=got)["holds"] is True
                     if not differs:
                         assert holds, f"model output rejected by the contract (theorem dump_contract): {got}"
                     else:
                         stats["bracketing_differs"] += 1
                         if not holds or STRICT_ASSOCIATION:
-                            return {"mismatch": True, "regions": [r1, r2], "flags": flags, "impl": got, "model": want,
-                                    "verdict": "wrong value" if not holds else "bracketing differs (STRICT_ASSOCIATION)"}
+                            return bad(r1, r2, flags, impl=[r + [v] for r, v in zip(rawrows, got)],
+                                       model=[r + [v] for r, v in zip(rawrows, want)],
+                                       verdict="wrong value" if not holds else "bracketing differs (STRICT_ASSOCIATION)")
     finally:
         if os.path.exists(p):
             os.unlink(p)
@@ -474,7 +657,7 @@ def _arith(case):
     return None
 
 
-CHECKS = {"matrix": _matrix, "dump": _dump, "constants": _constants, "arith": _arith}
+CHECKS = {"matrix": _matrix, "dump": _dump, "sequence": _sequence, "constants": _constants, "arith": _arith}
 
 
 # ------------------------------------------------------------------------------------------------
@@ -547,7 +730,30 @@ def _case(rng, n, nconf):
     rng.shuffle(rest)
     case["configs"] = fixed + rest[:max(0, nconf - len(fixed))]
     case["join_config"] = rng.randrange(len(case["configs"]))
+    # the configuration read with ignore_index=False on every window: one whose column exists
+    live = [k for k, c in enumerate(case["configs"]) if (c[0] is True and "weight" in present) or c[0] in present]
+    case["idx_config"] = rng.choice(live) if live else 0
     return case
+
+
+def _seq_case(rng, nmax):
+    """2-3 collections in one file carrying the SAME weight-column names with different vectors"""
+    ng = 2 if rng.random() < 0.75 else 3
+    names = ["weight"] + ([rng.choice(["KR", "VC", "wt2"])] if rng.random() < 0.7 else [])
+    sizes = [rng.randint(2, nmax) for _ in range(ng)]
+    if rng.random() < 0.4:
+        sizes = [sizes[0]] * ng  # same shape (scool-like): a foreign vector fits and is silently wrong
+    groups = []
+    for n in sizes:
+        g = _store(rng, n)
+        g["field"] = "count"
+        g["pixels"] = [r[:3] for r in g["pixels"]]
+        g["weights"] = [[nm, _weight_vec(rng, n, rng.choice(["realistic", "realistic", "mixed"]))] for nm in names]
+        groups.append(g)
+    configs = [[True, None]] + [[nm, None] for nm in names[1:]]
+    if rng.random() < 0.5:
+        configs.append(["weight", True])
+    return {"groups": groups, "configs": configs}
 
 
 def cases(tier, rng):
@@ -568,8 +774,15 @@ def cases(tier, rng):
               "pixels": [[0, 0, 4], [0, 1, 2], [0, 2, 1], [1, 1, 3], [1, 2, 5], [2, 2, 6]],
               "weights": [["weight", [hx(0.1), hx(1 / 3), hx(float("nan"))]], ["KR", [hx(3.0), hx(0.7), hx(0.0)]]],
               "configs": [[True, None], ["KR", None], ["KR", False], ["weight", True], ["missing", None]], "join_config": 0}
+    corpus["idx_config"] = 1
     yield "matrix", corpus
     yield "dump", corpus
+    # two collections of one file, same column name, different vectors (and lengths), read in turn
+    yield "sequence", {"groups": [
+        {"chroms": [2, 1], "mode": "symm", "pixels": [[0, 0, 4], [0, 1, 2], [0, 2, 1], [1, 1, 3], [1, 2, 5], [2, 2, 6]],
+         "weights": [["weight", [hx(0.1), hx(1 / 3), hx(float("nan"))]]]},
+        {"chroms": [2], "mode": "symm", "pixels": [[0, 0, 7], [0, 1, 9], [1, 1, 11]],
+         "weights": [["weight", [hx(2.0), hx(0.7)]]]}], "configs": [[True, None], ["weight", True]]}
     nconf = 6 if thorough else 4
     if thorough:
         plan = [(7, 16), (6, 20), (5, 24), (4, 20), (3, 16), (2, 8), (1, 3)]
@@ -579,6 +792,8 @@ def cases(tier, rng):
     for n, count in plan:
         for _ in range(count):
             yield "matrix", _case(rng, n, nconf)
+    for _ in range(24 if thorough else 8):
+        yield "sequence", _seq_case(rng, 4 if thorough else 3)
     for n, count in ([(7, 4), (6, 6), (5, 8), (4, 8), (3, 8), (2, 4)] if thorough else [(5, 3), (4, 4), (3, 4), (2, 2)]):
         for _ in range(count):
             c = _case(rng, n, 1)
@@ -594,6 +809,8 @@ def cases(tier, rng):
 def nontrivial(name, case):
     if name in ("matrix", "dump"):
         return sum(case["chroms"]) >= 2 and len(case["pixels"]) >= 1 and len(case["weights"]) >= 1
+    if name == "sequence":
+        return len(case["groups"]) >= 2 and all(g["pixels"] for g in case["groups"])
     return True
 
 
@@ -605,6 +822,9 @@ def distribution(name, case):
         yield f"{name}.field={case.get('field', 'count')}"
         for nm, _ in case["weights"]:
             yield f"{name}.column.{nm}"
+    if name == "sequence":
+        yield f"sequence.groups={len(case['groups'])}"
+        yield "sequence.sizes=" + ("equal" if len({sum(g['chroms']) for g in case['groups']}) == 1 else "different")
 
 
 # ------------------------------------------------------------------------------------------------
@@ -612,7 +832,7 @@ def distribution(name, case):
 # ------------------------------------------------------------------------------------------------
 
 def shrink(name, case):
-    if name not in ("matrix", "dump"):
+    if name not in ("matrix", "dump", "sequence"):
         return
     if "only" not in case:
         # first pin the failing window / configuration so that later candidates are cheap to re-run
@@ -622,9 +842,21 @@ def shrink(name, case):
             if name == "matrix":
                 f = r["first"]
                 c["only"] = {"win": f["win"], "forms": [f["form"]], "configs": [f["config_index"]]}
+            elif name == "sequence":
+                f = r["first"]
+                # the whole turn of that step is kept: the failing read needs the read before it
+                c["only"] = {"step": f["step"], "forms": [f["form"]], "configs": [f["config_index"]]}
             else:
                 c["only"] = {"regions": r["regions"], "flags": r["flags"]}
             yield c
+        return
+    if name == "sequence":
+        for g_, g in enumerate(case["groups"]):
+            for k in range(len(g["pixels"])):
+                c = dict(case)
+                c["groups"] = [dict(x) for x in case["groups"]]
+                c["groups"][g_]["pixels"] = g["pixels"][:k] + g["pixels"][k + 1:]
+                yield c
         return
     # drop a pixel
     for k in range(len(case["pixels"])):
